@@ -184,6 +184,15 @@ type KnownFindings struct {
 	} `json:"fixed"`
 }
 
+// outDir is where evidence and replays are written (VERIF_OUT overrides, used
+// when the checks are pointed at a scratch copy of the repository).
+func outDir() string {
+	if d := os.Getenv("VERIF_OUT"); d != "" {
+		return d
+	}
+	return verifDir()
+}
+
 func verifDir() string {
 	if d := os.Getenv("VERIF_DIR"); d != "" {
 		return d
@@ -273,7 +282,7 @@ func RunMain(id, tier string) int {
 	sort.Strings(sigs)
 	kf := loadKnown()
 	nViol := 0
-	os.MkdirAll(filepath.Join(verifDir(), "replays", id), 0o755)
+	os.MkdirAll(filepath.Join(outDir(), "replays", id), 0o755)
 	var lines []string
 	knownLines := []string{}
 	for _, s := range sigs {
@@ -303,7 +312,7 @@ func RunMain(id, tier string) int {
 			continue
 		}
 		nViol++
-		path := filepath.Join(verifDir(), "replays", id, sanitize(s)+".json")
+		path := filepath.Join(outDir(), "replays", id, sanitize(s)+".json")
 		rb, _ := json.MarshalIndent(map[string]interface{}{
 			"property": id, "tier": tier, "space": v.Space, "index": v.Index, "case": v.Case,
 			"signature": s, "detail": v.Detail, "cases_with_signature": v.Count,
@@ -387,8 +396,8 @@ func RunMain(id, tier string) int {
 		ev.Assumptions = []string{}
 	}
 	eb, _ := json.MarshalIndent(ev, "", " ")
-	os.MkdirAll(filepath.Join(verifDir(), "evidence"), 0o755)
-	os.WriteFile(filepath.Join(verifDir(), "evidence", id+".json"), eb, 0o644)
+	os.MkdirAll(filepath.Join(outDir(), "evidence"), 0o755)
+	os.WriteFile(filepath.Join(outDir(), "evidence", id+".json"), eb, 0o644)
 	fmt.Printf("%s %s: cases=%d/%d evaluations=%d nontrivial=%d states=%d transitions=%d outcomes=%d violations=%d known=%d exhaustive=%v wall=%.1fs\n",
 		id, tier, agg.Counters["cases"], total, evals, agg.Counters["nontrivial"], states, trans, len(agg.Outcomes), nViol, len(knownLines), exhaustive, wall)
 	if nViol > 0 {
